@@ -15,7 +15,7 @@ case "$patch" in
 esac
 ( cd $d/repo && diff -ru /repo/src src | grep -E "^[+-]" | grep -vE "^(\+\+\+|---)" | head -12 )
 export CACHED_SRC=$d/repo/src CARGO_TARGET_DIR=/tmp/mt/target CARGO_NET_OFFLINE=true
-( cd /verif/mc && cargo build --release --offline 2>$d/build.log >/dev/null ) || { echo "BUILD FAILED"; grep -E "^error" -A6 $d/build.log | head -30; exit 2; }
+( cd ${MC_SRC:-/verif/mc} && cargo build --release --offline 2>$d/build.log >/dev/null ) || { echo "BUILD FAILED"; grep -E "^error" -A6 $d/build.log | head -30; exit 2; }
 cp /tmp/mt/target/release/mc $d/mc
 caught=""
 for id in $ids; do
